@@ -29,7 +29,20 @@ const Rule = "cases = (implementation, comparator min|max|half and the non-norma
 	"operand empty or not, the same operand merged again, self-merge, and Merge with an operand of another type - a " +
 	"non-empty heap of the other mergeable implementation and the nil interface - which must change neither side), long insert/delete churn crossing " +
 	"binary-heap resize boundaries, state dumps " +
-	"(array / forest in root-list order) after mutations; non-trivial = at least one operation whose " +
+	"(array / forest in root-list order) after mutations. The constructor is part of every case. " +
+	"Size families (every tier): one heap walked through 1, 2, 63-65, 255-257, 1023-1025 held entries and drained through the same sizes " +
+	"(keys ascending / descending / all equal / random / of extreme magnitude MinInt..MaxInt under min and max), with a battery of every query at each size, " +
+	"three Deletes back below each threshold and up again, a self-merge and a burst of Insert+Delete at the peak (thorough: also through 4095-4097 and 16385); " +
+	"NewBinary with initial size 0, 1, 2, 63-65, 255-257, 1023-1025 (thorough: 4095-4097, 65535-65537) filled past its first doubling and drained through its halvings; " +
+	"Merge of two heaps of 63+1, 64+64, 65+63, 255+257, 256+256, 1+1023, 1024+1024, 1025+1, 0+1024, 1024+0, ~2^12+2^12 entries (both used afterwards, the operand merged again, " +
+	"everything merged back the other way, drained); chains of 4-12 Merges of heaps of sizes 1, 1, 2, 4, ... into one heap or as a tournament; " +
+	"one heap of 65535 / 65536 / 65537 / 70000 entries per implementation and a Merge of two heaps of ~2^16 entries per mergeable implementation. " +
+	"The executable Models of the binary and the Fibonacci heap are quadratic at 2^16 entries (15 s / 3 min; written for proofs: lists), so in the quick tier the 2^16 cases are " +
+	"judged by the Go oracle alone (extra.oracle_only_cases); the thorough tier compares the binomial Model at every one of these sizes, the binary Model once, and all three at 16385 entries. " +
+	"Mixed comparators (header oris=a,b,c: heap r of the family is built with comparator r mod 3): random histories with Merges over three heaps built with different comparators of one order " +
+	"(min / a-b / 7(a-b), or max / b-a: the full property is claimed) or of different orders (the Model says what the code does; the oracle claims the union of the entries only, " +
+	"no extremality, until the receiver has been emptied - tag foreign-order-no-extremality-claim). " +
+	"non-trivial = at least one operation whose " +
 	"consolidation linked >= 2 trees, or a binary-heap resize (grow or shrink); distinct = distinct (header, op list)"
 
 type kv struct{ k, v int }
@@ -72,11 +85,62 @@ func cmpOf(ori string) func(int, int) int {
 	return cmpMin
 }
 
+// reg is one heap of the family with what the oracle knows about it: the multiset of held pairs, the held keys
+// in the order of the heap's own comparator (for extremality and ContainsKey by binary search) and the held values.
 type reg struct {
 	h        heap.Heap[int, int]
-	bag      []kv
+	ori      string             // the comparator this heap was built with
+	cmp      func(int, int) int //
+	pairs    map[kv]int
+	n        int // number of held pairs
+	keys     *keyBag
+	vals     map[int]int
 	everHeld bool // held an entry at some point
 	merged   bool // was the operand of a Merge
+	// foreign: the heap absorbed the trees of a non-empty heap that was ordered by a DIFFERENT order (Merge with
+	// a heap built with another comparator): it still holds the union of the entries, but nothing promises that
+	// Peek/Delete find an extremal key until it has been emptied.  (Comparators that differ only in the magnitude
+	// of their results, min / a-b / 7(a-b), are the same order.)
+	foreign bool
+}
+
+func newReg(comp string, size int, ori string) *reg {
+	cmp := cmpOf(ori)
+	return &reg{h: newHeap(comp, size, cmp), ori: ori, cmp: cmp, pairs: map[kv]int{}, keys: &keyBag{cmp: cmp}, vals: map[int]int{}}
+}
+
+func (g *reg) add(p kv) {
+	g.pairs[p]++
+	g.n++
+	g.keys.add(p.k)
+	g.vals[p.v]++
+}
+
+func (g *reg) remove(p kv) {
+	if g.pairs[p]--; g.pairs[p] == 0 {
+		delete(g.pairs, p)
+	}
+	g.n--
+	g.keys.del(p.k)
+	g.vals[p.v]--
+	if g.n == 0 {
+		g.foreign = false
+	}
+}
+
+func (g *reg) clear() {
+	g.pairs, g.n, g.keys, g.vals, g.foreign = map[kv]int{}, 0, &keyBag{cmp: g.cmp}, map[int]int{}, false
+}
+
+// orderOf: comparators that induce the same order (they differ in the magnitude of their results only)
+func orderOf(ori string) string {
+	switch ori {
+	case "max", "maxraw":
+		return "max"
+	case "half":
+		return "half"
+	}
+	return "min"
 }
 
 func newHeap(comp string, size int, cmp func(int, int) int) heap.Heap[int, int] {
@@ -123,10 +187,12 @@ func Exec(c hx.Case) hx.Result {
 		defer close(done)
 		exec(c, &res, &mu)
 	}()
+	// (a case of several hundred thousand operations gets proportionally more time)
+	limit := watchdog + time.Duration(len(c.Ops)/10000)*time.Second
 	select {
 	case <-done:
 		return res
-	case <-time.After(watchdog):
+	case <-time.After(limit):
 		hangMu.Lock()
 		hangs[hx.HeaderGet(c.Header, "comp")]++
 		hangMu.Unlock()
@@ -136,7 +202,7 @@ func Exec(c hx.Case) hx.Result {
 		snap.Outs = append(append([]string{}, res.Outs...), "hang")
 		if snap.BadOp < 0 {
 			snap.BadOp = len(snap.Outs) - 1
-			snap.What = fmt.Sprintf("%s did not return within %v", c.Ops[min(len(snap.Outs)-1, len(c.Ops)-1)], watchdog)
+			snap.What = fmt.Sprintf("%s did not return within %v", c.Ops[min(len(snap.Outs)-1, len(c.Ops)-1)], limit)
 		}
 		snap.Tags = []string{"hang"}
 		return snap
@@ -147,10 +213,11 @@ func exec(c hx.Case, res *hx.Result, mu *sync.Mutex) {
 	comp := hx.HeaderGet(c.Header, "comp")
 	ori := hx.HeaderGet(c.Header, "ori")
 	size, _ := strconv.Atoi(hx.HeaderGet(c.Header, "size"))
-	cmp := cmpOf(ori)
 	mergeable := comp != "binary"
-	if newHeap(comp, size, cmp) == nil {
-		return
+	// oris=a,b,c: heap r of the family is built with comparator oris[r mod 3] (absent: every heap with `ori`)
+	oris := []string{ori}
+	if v := hx.HeaderGet(c.Header, "oris"); v != "" && mergeable {
+		oris = strings.Split(v, ",")
 	}
 	bad := func(i int, format string, a ...any) {
 		if res.BadOp < 0 {
@@ -158,38 +225,45 @@ func exec(c hx.Case, res *hx.Result, mu *sync.Mutex) {
 			res.What = fmt.Sprintf(format, a...)
 		}
 	}
-	tags := map[string]bool{"comp=" + comp: true, "ori=" + ori: true}
+	tags := map[string]bool{"comp=" + comp: true}
+	for _, o := range oris {
+		tags["ori="+o] = true
+	}
+	// the constructor is part of the history (initial size 0 included)
+	var probe heap.Heap[int, int]
+	if kind := hx.Try(func() { probe = newHeap(comp, size, cmpOf(ori)) }); kind != "" {
+		mu.Lock()
+		res.Outs = append(res.Outs, "panic")
+		bad(0, "the constructor of the %s heap (initial size %d) panicked (%s)", comp, size, kind)
+		res.Tags = []string{"panic"}
+		mu.Unlock()
+		return
+	}
+	if probe == nil {
+		return
+	}
 	var regs []*reg
 	get := func(r int) *reg {
 		for len(regs) <= r {
-			regs = append(regs, &reg{h: newHeap(comp, size, cmp)})
+			regs = append(regs, newReg(comp, size, oris[len(regs)%len(oris)]))
 		}
 		return regs[r]
 	}
-	extremal := func(bag []kv, k int) bool {
-		for _, p := range bag {
-			if cmp(k, p.k) > 0 {
-				return false
+	extremal := func(g *reg, k int) bool {
+		fast := g.keys.extremal(k)
+		if g.n <= 24 { // small states: the definition itself, pair by pair
+			slow := true
+			for p := range g.pairs {
+				if g.cmp(k, p.k) > 0 {
+					slow = false
+				}
 			}
-		}
-		return true
-	}
-	ties := func(bag []kv, k int) int {
-		n := 0
-		for _, p := range bag {
-			if cmp(k, p.k) == 0 {
-				n++
+			if slow != fast {
+				bad(len(res.Outs), "harness: the two oracles of extremality disagree on key %d", k)
 			}
+			return slow
 		}
-		return n
-	}
-	find := func(bag []kv, p kv) int {
-		for i, q := range bag {
-			if q == p {
-				return i
-			}
-		}
-		return -1
+		return fast
 	}
 	links := func(n int) {
 		if n >= 2 {
@@ -209,6 +283,7 @@ func exec(c hx.Case, res *hx.Result, mu *sync.Mutex) {
 		return 0
 	}
 	maxBag := 0
+	mixed := false // a Merge between heaps built with different comparators happened
 
 	for i, op := range c.Ops {
 		f := strings.Fields(op)
@@ -255,7 +330,7 @@ func exec(c hx.Case, res *hx.Result, mu *sync.Mutex) {
 				if comp == "fibonacci" {
 					otherComp = "binomial"
 				}
-				other := newHeap(otherComp, 0, cmp).(heap.MergeableHeap[int, int])
+				other := newHeap(otherComp, 0, rd.cmp).(heap.MergeableHeap[int, int])
 				other.Insert(-5, -50)
 				other.Insert(9, -90)
 				other.Insert(2, -20)
@@ -263,8 +338,8 @@ func exec(c hx.Case, res *hx.Result, mu *sync.Mutex) {
 				rd.h.(heap.MergeableHeap[int, int]).Merge(nil)
 				out = "ok"
 				tags["merge-other-type"] = true
-				if n := rd.h.Size(); n != len(rd.bag) {
-					bad(i, "after Merge with a %s heap the receiver holds %d entries, it held %d", otherComp, n, len(rd.bag))
+				if n := rd.h.Size(); n != rd.n {
+					bad(i, "after Merge with a %s heap the receiver holds %d entries, it held %d", otherComp, n, rd.n)
 				}
 				if rd.h.ContainsValue(-50) || rd.h.ContainsValue(-90) || rd.h.ContainsValue(-20) {
 					bad(i, "Merge with a %s heap moved entries into the %s heap", otherComp, comp)
@@ -293,23 +368,50 @@ func exec(c hx.Case, res *hx.Result, mu *sync.Mutex) {
 					links(before - len(heap.VerifRoots(rd.h)))
 				}
 				switch {
-				case len(rd.bag) > 0 && len(rs.bag) > 0:
+				case rd.n > 0 && rs.n > 0:
 					tags["merge-both-nonempty"] = true
-				case len(rd.bag) == 0 && len(rs.bag) > 0:
+				case rd.n == 0 && rs.n > 0:
 					tags["merge-into-empty-receiver"] = true
 					if rd.everHeld {
 						tags["merge-into-drained-or-cleared-receiver"] = true
 					}
-				case len(rs.bag) == 0:
+				case rs.n == 0:
 					tags["merge-empty-operand"] = true
 				}
 				if rs.merged {
 					tags["merge-same-operand-again"] = true
 				}
+				if rs.n >= 64 && rd.n >= 64 {
+					tags["merge-both>=64"] = true
+				}
+				if rs.n >= 1024 && rd.n >= 1024 {
+					tags["merge-both>=1024"] = true
+				}
+				if rd.ori != rs.ori {
+					mixed = true
+					if orderOf(rd.ori) == orderOf(rs.ori) {
+						tags["merge-other-comparator-same-order"] = true
+					} else {
+						tags["merge-other-comparator-other-order"] = true
+						if rs.n > 0 {
+							rd.foreign = true
+						}
+					}
+				}
+				if rs.foreign && rs.n > 0 {
+					rd.foreign = true
+				}
 				rs.merged = true
-				rd.bag = append(rd.bag, rs.bag...)
-				rd.everHeld = rd.everHeld || len(rd.bag) > 0
-				rs.bag = nil // the operand stays in use and must be empty now
+				for p, m := range rs.pairs {
+					for ; m > 0; m-- {
+						rd.add(p)
+					}
+				}
+				rd.everHeld = rd.everHeld || rd.n > 0
+				rs.clear() // the operand stays in use and must be empty now
+				if rd.n > maxBag {
+					maxBag = rd.n
+				}
 				return
 			}
 			r, err := strconv.Atoi(f[1])
@@ -323,7 +425,8 @@ func exec(c hx.Case, res *hx.Result, mu *sync.Mutex) {
 				v, _ := strconv.Atoi(f[3])
 				capBefore := heap.VerifCap(g.h)
 				var before int
-				if comp == "binomial" {
+				watch := g.n <= 5000 // the statistics on linking read the root list: only on heaps of moderate size
+				if comp == "binomial" && watch {
 					before = len(heap.VerifRoots(g.h))
 				}
 				g.h.Insert(k, v)
@@ -331,11 +434,11 @@ func exec(c hx.Case, res *hx.Result, mu *sync.Mutex) {
 					tags["operand-used-after-merge"] = true
 				}
 				g.everHeld = true
-				g.bag = append(g.bag, kv{k, v})
-				if len(g.bag) > maxBag {
-					maxBag = len(g.bag)
+				g.add(kv{k, v})
+				if g.n > maxBag {
+					maxBag = g.n
 				}
-				if comp == "binomial" {
+				if comp == "binomial" && watch {
 					links(before + 1 - len(heap.VerifRoots(g.h)))
 				}
 				if c2 := heap.VerifCap(g.h); c2 != capBefore {
@@ -348,8 +451,9 @@ func exec(c hx.Case, res *hx.Result, mu *sync.Mutex) {
 				var ok bool
 				var rootsBefore [][2]int
 				capBefore := heap.VerifCap(g.h)
+				watch := mergeable && g.n <= 5000
 				if f[0] == "del" {
-					if mergeable {
+					if watch {
 						rootsBefore = heap.VerifRoots(g.h)
 					}
 					k, v, ok = g.h.Delete()
@@ -357,7 +461,7 @@ func exec(c hx.Case, res *hx.Result, mu *sync.Mutex) {
 					k, v, ok = g.h.Peek()
 				}
 				out = optKV(k, v, ok)
-				if len(g.bag) == 0 {
+				if g.n == 0 {
 					if ok {
 						bad(i, "%s on an empty heap returned (%d,%d)", f[0], k, v)
 					}
@@ -365,23 +469,24 @@ func exec(c hx.Case, res *hx.Result, mu *sync.Mutex) {
 					break
 				}
 				if !ok {
-					bad(i, "%s reported empty while %d entries are held", f[0], len(g.bag))
+					bad(i, "%s reported empty while %d entries are held", f[0], g.n)
 					break
 				}
-				at := find(g.bag, kv{k, v})
-				if at < 0 {
+				if g.pairs[kv{k, v}] == 0 {
 					bad(i, "%s returned (%d,%d), which is not a held pair", f[0], k, v)
 					break
 				}
-				if !extremal(g.bag, k) {
+				if g.foreign {
+					tags["foreign-order-no-extremality-claim"] = true
+				} else if !extremal(g, k) {
 					bad(i, "%s returned key %d, which is not extremal among the held keys", f[0], k)
 				}
-				if ties(g.bag, k) >= 2 {
+				if g.keys.count(k) >= 2 {
 					tags["extremal-tie"] = true
 				}
 				if f[0] == "del" {
-					g.bag = append(g.bag[:at:at], g.bag[at+1:]...)
-					if mergeable {
+					g.remove(kv{k, v})
+					if watch {
 						links(len(rootsBefore) - 1 + degOf(rootsBefore, v) - len(heap.VerifRoots(g.h)))
 					}
 					if c2 := heap.VerifCap(g.h); c2 != capBefore {
@@ -391,39 +496,33 @@ func exec(c hx.Case, res *hx.Result, mu *sync.Mutex) {
 				}
 			case f[0] == "clear" && len(f) == 2:
 				g.h.DeleteAll()
-				g.bag = nil
+				g.clear()
 				out = "ok"
 			case f[0] == "size" && len(f) == 2:
 				n := g.h.Size()
 				out = "ok " + strconv.Itoa(n)
-				if n != len(g.bag) {
-					bad(i, "size = %d, %d entries are held", n, len(g.bag))
+				if n != g.n {
+					bad(i, "size = %d, %d entries are held", n, g.n)
 				}
 			case f[0] == "empty" && len(f) == 2:
 				e := g.h.IsEmpty()
 				out = "ok " + strconv.FormatBool(e)
-				if e != (len(g.bag) == 0) {
-					bad(i, "isEmpty = %v with %d entries held", e, len(g.bag))
+				if e != (g.n == 0) {
+					bad(i, "isEmpty = %v with %d entries held", e, g.n)
 				}
 			case f[0] == "hask" && len(f) == 3:
 				k, _ := strconv.Atoi(f[2])
 				got := g.h.ContainsKey(k)
 				out = "ok " + strconv.FormatBool(got)
-				if want := ties(g.bag, k) > 0; got != want {
+				if want := g.keys.has(k); got != want {
 					bad(i, "containsKey %d = %v, the held multiset says %v", k, got, want)
 				}
 			case f[0] == "hasv" && len(f) == 3:
 				v, _ := strconv.Atoi(f[2])
 				got := g.h.ContainsValue(v)
 				out = "ok " + strconv.FormatBool(got)
-				want := false
-				for _, p := range g.bag {
-					if p.v == v {
-						want = true
-					}
-				}
-				if got != want {
-					bad(i, "containsValue %d = %v, the held multiset says %v", v, got, want)
+				if want := g.vals[v] > 0; got != want {
+					bad(i, "containsValue %d = %v, the held multiset says %v", v, got, g.vals[v] > 0)
 				}
 			case f[0] == "dump" && len(f) == 2:
 				out = "ok " + heap.VerifDump(g.h)
@@ -440,11 +539,16 @@ func exec(c hx.Case, res *hx.Result, mu *sync.Mutex) {
 		res.Outs = append(res.Outs, out)
 		mu.Unlock()
 	}
-	switch {
-	case maxBag >= 64:
-		tags["held>=64"] = true
-	case maxBag >= 16:
+	if maxBag >= 16 {
 		tags["held>=16"] = true
+	}
+	for _, t := range []int{64, 256, 1024, 65536} {
+		if maxBag >= t {
+			tags["held>="+strconv.Itoa(t)] = true
+		}
+	}
+	if mixed {
+		tags["mixed-comparators"] = true
 	}
 	mu.Lock()
 	for t := range tags {
@@ -480,7 +584,11 @@ func (g *gen) add(op string) { g.ops = append(g.ops, op) }
 
 func (g *gen) ins(r int) {
 	g.next++
-	g.add(fmt.Sprintf("ins %d %d %d", r, g.r.Intn(g.universe), g.next))
+	k := g.r.Intn(g.universe)
+	if g.r.Chance(1, 30) {
+		k = -1 // below the universe: a new extremum for min, the last one out for max
+	}
+	g.add(fmt.Sprintf("ins %d %d %d", r, k, g.next))
 	g.held[r]++
 }
 
@@ -496,10 +604,10 @@ func (g *gen) query(r int) {
 	case x < 25:
 		g.add(fmt.Sprintf("peek %d", r))
 	case x < 45:
-		g.add(fmt.Sprintf("hask %d %d", r, g.r.Intn(g.universe+1)))
+		g.add(fmt.Sprintf("hask %d %d", r, g.r.Range(-1, g.universe)))
 	case x < 70:
 		// a value that was inserted at some point (maybe deleted since, maybe in another register) or never
-		g.add(fmt.Sprintf("hasv %d %d", r, g.r.Intn(g.next+2)))
+		g.add(fmt.Sprintf("hasv %d %d", r, g.r.Range(-1, max(g.next, 0)+1)))
 	case x < 85:
 		g.add(fmt.Sprintf("size %d", r))
 	default:
@@ -553,6 +661,9 @@ func genMixed(r *hx.Rand, comp string, n int, dumpEvery int) []string {
 	}
 	if comp != "binary" {
 		g.nregs = r.Range(1, 3)
+	}
+	if r.Chance(1, 4) {
+		g.next = -2 // the first values are -1 and 0 (a sentinel-like value and the zero value), then 1, 2, ...
 	}
 	g.held = make([]int, g.nregs)
 	fill := true
@@ -866,6 +977,8 @@ func Main(run *hx.Run) {
 			run.Do(comp, c, Exec)
 		}
 	}
+	hardFamilies(run)
+
 	// maxDegree: the integer Model of the float computation, on every n of a range
 	hi := 100000
 	if run.Thorough() {
